@@ -309,7 +309,7 @@ func (w *world) fmtDump() string {
 	s, l, ok := w.dump()
 	var es, ls []string
 	for _, e := range s {
-		es = append(es, fmt.Sprintf("%s:%s:%s:%d:%s", fmtR(e.ID, e.Start, e.End, e.Ver, e.ConfVer), b01(e.Valid), b01(e.Reload), e.Leader, joinU(e.Peers)))
+		es = append(es, fmt.Sprintf("%s:%s:%s:%s:%d:%s", fmtR(e.ID, e.Start, e.End, e.Ver, e.ConfVer), b01(e.Valid), b01(e.Reload), b01(e.DelayedOnly), e.Leader, joinU(e.Peers)))
 	}
 	for _, x := range l {
 		ls = append(ls, fmt.Sprintf("%d:%d:%d", x[0], x[1], x[2]))
@@ -715,7 +715,7 @@ func (w *world) exec(line string) string {
 			l2, err := w.cache.LocateKey(w.bo(), k)
 			settled := err == nil && mkLoc(l2).key() == cur.key() && w.spd.calls == calls
 			return verdict(check{settled, "not-settled"}, check{failed <= 1, "too-many-attempts"}, regress()) + fmt.Sprintf(" %d", failed)
-		case f[0] == "expire" && len(f) == 2:
+		case (f[0] == "expire" || f[0] == "delayreload") && len(f) == 2:
 			id, ok := num(f[1])
 			if !ok {
 				return "bad-op"
@@ -724,7 +724,11 @@ func (w *world) exec(line string) string {
 			if !ok {
 				return "none"
 			}
-			w.cache.VerifExpire(v)
+			if f[0] == "expire" {
+				w.cache.VerifExpire(v)
+			} else {
+				w.cache.VerifSetDelayedReload(v)
+			}
 			return "ok"
 		case f[0] == "sendfail" && len(f) == 3:
 			id, ok := num(f[1])
@@ -1002,7 +1006,7 @@ func (g *gen) cacheOp() {
 	case x >= 100 && x < 107:
 		g.do(fmt.Sprintf("expire %d", id))
 	case x >= 107 && x < 112:
-		g.do(fmt.Sprintf("expire %d", id))
+		g.do(fmt.Sprintf("delayreload %d", id))
 	case x >= 112:
 		g.do(fmt.Sprintf("sendfail %d %d", id, g.r.Intn(2)))
 	case x < 35:
@@ -1128,6 +1132,135 @@ func (g *gen) holeScenario() {
 	g.do("pdview live")
 }
 
+func (g *gen) perm4() []int {
+	p := []int{0, 1, 2, 3}
+	for i := 3; i > 0; i-- {
+		j := g.r.Intn(i + 1)
+		p[i], p[j] = p[j], p[i]
+	}
+	return p
+}
+
+// boundaryScenario: every boundary key of a 3..6 region layout is looked up by key, by END key, and as the end/start of
+// range and batch requests, with the region that ENDS at the boundary (and sometimes the one that starts there) in each
+// cache state: warm, need-reload (set directly or by OnSendFail with scheduleReload), delayed-reload ready, invalidated,
+// TTL run out, missing (GC'd after invalidation).  By end key the answer must satisfy start < k <= end.
+func (g *gen) boundaryScenario() {
+	k := 3 + g.r.Intn(4)
+	pts := g.sortedPoints(k - 1)
+	lastID := uint64(1)
+	for _, p := range pts {
+		if len(p) == 0 {
+			continue
+		}
+		out := g.do(fmt.Sprintf("split %d %d %s", lastID, g.nextID, vx.Hex(p)))
+		if strings.HasPrefix(out, "ok") {
+			g.nTopo++
+			lastID = g.nextID
+		}
+		g.nextID++
+	}
+	st := pdState(g.w.live)
+	if len(st) < 3 {
+		return
+	}
+	states := []string{"warm", "needreload", "sendfail", "delayreload", "inval", "expire", "missing"}
+	setState := func(id uint64, state string) {
+		switch state {
+		case "warm":
+		case "sendfail":
+			g.do(fmt.Sprintf("sendfail %d 1", id))
+		case "missing":
+			g.do(fmt.Sprintf("inval %d", id))
+			g.do("gc")
+		default:
+			g.do(fmt.Sprintf("%s %d", state, id))
+		}
+	}
+	for i := 0; i+1 < len(st); i++ {
+		b := st[i].end // boundary between st[i] and st[i+1]
+		g.do("range - -") // (re)warm the whole span
+		setState(st[i].id, states[g.r.Intn(len(states))])
+		if g.r.Chance(35) {
+			setState(st[i+1].id, states[g.r.Intn(len(states))])
+		}
+		if g.r.Chance(25) {
+			g.do("pdview 0")
+		}
+		for _, q := range g.perm4() {
+			switch q {
+			case 0:
+				g.do("locend " + vx.Hex(b))
+			case 1:
+				g.do("loc " + vx.Hex(b))
+			case 2:
+				g.do("range " + vx.Hex(st[i].start) + " " + vx.Hex(b))
+			default:
+				end := "-"
+				if len(st[i+1].end) > 0 {
+					end = vx.Hex(st[i+1].end)
+				}
+				g.do("batch " + vx.Hex(st[i].start) + ":" + vx.Hex(b) + " " + vx.Hex(b) + ":" + end)
+			}
+			if g.r.Chance(40) {
+				g.do("dump")
+			}
+		}
+		g.do("pdview live")
+	}
+	g.do("locend -")
+	g.do("dump")
+	// a stale PD answer (the parent before the last m-1 splits) over children that are all dead in the cache
+	// (invalidated or TTL run out): the newer dead entries must still not be replaced by the older description
+	if g.nTopo >= 2 && g.r.Chance(70) {
+		st = pdState(g.w.live)
+		m := 2 + g.r.Intn(2)
+		if m > len(st) || m-1 > g.nTopo {
+			m = 2
+		}
+		dead := st[len(st)-m:]
+		if g.r.Chance(60) {
+			// the parent's id lives on in the left-most child: with that child absent from the cache, latestVersions
+			// knows nothing about the stale description's id and only the intersecting newer entries can refuse it
+			g.do("newcache")
+			dead = st[len(st)-m+1:]
+			for _, r := range dead {
+				g.do("loc " + vx.Hex(r.start))
+			}
+		} else {
+			g.do("range - -")
+		}
+		for _, r := range dead {
+			if g.r.Bool() {
+				g.do(fmt.Sprintf("inval %d", r.id))
+			} else {
+				g.do(fmt.Sprintf("expire %d", r.id))
+			}
+		}
+		g.do(fmt.Sprintf("pdview %d", g.nTopo-(m-1)))
+		first := st[len(st)-m]
+		for q := 0; q < 3; q++ {
+			r := st[len(st)-1-g.r.Intn(m)]
+			switch g.r.Intn(4) {
+			case 0:
+				g.do("loc " + vx.Hex(r.start))
+			case 1:
+				if len(r.end) > 0 {
+					g.do("locend " + vx.Hex(r.end))
+				} else {
+					g.do("locend -")
+				}
+			case 2:
+				g.do("range " + vx.Hex(first.start) + " -")
+			default:
+				g.do(fmt.Sprintf("locid %d", r.id))
+			}
+			g.do("dump")
+		}
+		g.do("pdview live")
+	}
+}
+
 // hugeBatch: more request ranges than one PD request takes (16 * defaultRegionsPerBatch), so step 2 of
 // BatchLocateKeyRanges sends a prefix of the uncached ranges per round and rangesAfterKey carries the rest over.
 func (g *gen) hugeBatch() {
@@ -1151,10 +1284,15 @@ func (g *gen) oneCase(n int, nops int) {
 	g.nextID = 2
 	g.nTopo = 0
 	shape := g.r.Intn(3)
-	family := g.r.Intn(4) == 0
+	family := g.r.Intn(3) == 0
 	if family {
-		g.run.Count("family:hole")
-		g.holeScenario()
+		if g.r.Bool() {
+			g.run.Count("family:hole")
+			g.holeScenario()
+		} else {
+			g.run.Count("family:boundary")
+			g.boundaryScenario()
+		}
 		nops /= 2
 	}
 	// initial partition
